@@ -201,7 +201,9 @@ theorem top_pollServer {L g0} (s : St) (now : Nat) (h : TopS L g0 s)
   simp only []
   split
   · exact top_dropServer _ (top_pollServerKeep s now h hy)
-  · exact top_pollServerKeep s now h hy
+  · split
+    · exact Top.of_frame (top_pollServerKeep s now h hy) rfl rfl rfl rfl rfl (fun hp => hp)
+    · exact top_pollServerKeep s now h hy
 
 /-! ## every op preserves the invariant; lifting to traces -/
 
